@@ -5,6 +5,7 @@ package main
 // between two of them. The relation is evaluated by the check on all three output streams.
 
 import (
+	"os"
 	"flag"
 	"fmt"
 	"runtime"
@@ -31,7 +32,23 @@ func parseCfg(s string) runCfg {
 	return c
 }
 
+// curFile (VERIF_CURFILE): the statement being executed, for the post-mortem of a crash in a goroutine the engine
+// spawned (which no recover of the harness can catch).
+var curFile = func() *os.File {
+	if p := os.Getenv("VERIF_CURFILE"); p != "" {
+		f, _ := os.Create(p)
+		return f
+	}
+	return nil
+}()
+
 func runWithCfg(store storage.Store, text string, c runCfg) (execResult, *semantic.Statement) {
+	if curFile != nil {
+		curFile.Truncate(0)
+		curFile.Seek(0, 0)
+		curFile.WriteString(hx(text) + "\n")
+		curFile.Sync()
+	}
 	if c.procs > 0 {
 		old := runtime.GOMAXPROCS(c.procs)
 		defer runtime.GOMAXPROCS(old)
